@@ -127,6 +127,7 @@ M("c09-ref-min-max", "C09", H, '            fch_ref = float(getattr(self, f"f{re
 
 # ---- C10
 ST = "sigpyproc/core/stats.py"
+M("c10-double-input-not-reduced", "C10", ST, "        if array.dtype == np.float64:\n            array = array.astype(np.float32)\n", "        if False:\n            array = array.astype(np.float32)\n", "original defect repaired by 2a4b9df")
 M("c10-merge-m3-sign", "C10", K, '    c["m3"][:] += 3 * delta * (a["count"] * b["m2"] - b["count"] * a["m2"]) / c["count"]', '    c["m3"][:] -= 3 * delta * (a["count"] * b["m2"] - b["count"] * a["m2"]) / c["count"]')
 M("c10-minmax-reinit", "C10", K, "    if startflag == 0:\n        for ichan in range(nchans):\n            moments[ichan][\"min\"] = array[ichan]\n            moments[ichan][\"max\"] = array[ichan]\n\n    for ichan in prange(nchans):\n        m1, m2, m3, m4 = (",
   "    if startflag >= 0:\n        for ichan in range(nchans):\n            moments[ichan][\"min\"] = array[ichan]\n            moments[ichan][\"max\"] = array[ichan]\n\n    for ichan in prange(nchans):\n        m1, m2, m3, m4 = (", "full mode: min/max re-initialised on every chunk")
